@@ -39,10 +39,14 @@ class DataManipulationAgent(PeriodicAgent, discriminator="red-database-corruptin
         :return: Action formatted in CAOS format
         :rtype: Tuple[str, Dict]
         """
-        if timestep < self.next_execution_timestep:
+        if (
+            timestep < self.next_execution_timestep
+            or self.num_executions >= self.config.agent_settings.max_executions
+        ):
             self.logger.debug(msg="Performing do nothing action")
             return "do-nothing", {}
 
+        self.num_executions += 1
         self._set_next_execution_timestep(
             timestep=timestep + self.config.agent_settings.frequency, variance=self.config.agent_settings.variance
         )
